@@ -255,11 +255,20 @@ impl ControlHandle {
         T: cmd::CommandScd,
         U: ack::ParseScd<'a>,
     {
+        let cmd = cmd.finalize(self.next_req_id);
+        let cmd_len = cmd.cmd_len();
+
+        // A command longer than the maximum command length negotiated with the device must not
+        // be sent.
+        if cmd_len > self.config.maximum_cmd_length as usize {
+            return Err(ControlError::Io(anyhow::Error::msg(
+                "the command is longer than the maximum command length of the device",
+            )));
+        }
+
         // Every command gets its own request id whatever its outcome is, so that a late
         // acknowledge of an abandoned command is never taken for the one of a later command.
-        let cmd = cmd.finalize(self.next_req_id);
         self.next_req_id = self.next_req_id.wrapping_add(1);
-        let cmd_len = cmd.cmd_len();
         let ack_len = cmd.maximum_ack_len();
         let ack_kind = match cmd.ccd().scd_kind() {
             cmd::ScdKind::ReadMem => ack::ScdKind::ReadMem,
